@@ -472,9 +472,14 @@ pub fn run(_params: &Params) {
           moves.push("reorder_disclosures");
         }
         3 => {
-          let forged = crate::core::b64::encode(
-            format!("[\"{}\", \"level\", 99]", crate::core::b64::encode(ctx::bytes(8))).as_bytes(),
-          );
+          let forged = if ctx::choose(3) == 0 {
+            // not a disclosure at all: text of arbitrary length that ends in characters outside ASCII (whatever the
+            // validator does with it - decode, quote it in an error - it must answer with an error)
+            ctx::stat("fault.adversary.garbage_disclosure_non_ascii");
+            format!("{}{}", "x".repeat(ctx::choose(300)), ["é", "ß", "€", "𝄞"][ctx::choose(4)].repeat(40 + ctx::choose(40)))
+          } else {
+            crate::core::b64::encode(format!("[\"{}\", \"level\", 99]", crate::core::b64::encode(ctx::bytes(8))).as_bytes())
+          };
           disclosures.push(forged);
           ctx::stat("fault.adversary.forge_disclosure");
           moves.push("forge_disclosure");
@@ -989,6 +994,56 @@ pub fn run(_params: &Params) {
       }
     }
     nontrivial = true;
+  }
+  // ---- an issuer token that declares a hash algorithm the verifier does not have: no KB-JWT can be bound to it ----
+  if ctx::chance(1, 8) {
+    let h = &holders[0];
+    clock.advance(30);
+    let now_i = clock.enter(issuer.skew);
+    let other_alg = ["sha-512", "sha3-256", "SHA-256"][ctx::choose(3)];
+    let claims = serde_json::json!({
+      "iss": issuer.did,
+      "nbf": now_i - 10,
+      "jti": "https://cred.example/otherhash",
+      "sub": h.did,
+      "_sd_alg": other_alg,
+      "_sd": [],
+      "vc": {"@context": "https://www.w3.org/2018/credentials/v1", "type": ["VerifiableCredential"], "credentialSubject": {"level": 1}}
+    });
+    let opts = JwsSignatureOptions::default().typ("sd-jwt".to_owned());
+    if let Ok(jwt) = sign_raw(&issuer, "sign", claims.to_string().as_bytes(), &opts) {
+      let now_h = clock.enter(h.skew);
+      // the holder binds with the only hash it has (sha-256)
+      let kb_claims = KeyBindingJwtClaims::new(&Sha256Hasher::new(), jwt.clone(), Vec::new(), "n-otherhash".to_owned(), "https://verifier.example".to_owned(), now_h);
+      let kb_opts = JwsSignatureOptions::default().typ(KeyBindingJwtClaims::KB_JWT_HEADER_TYP.to_owned());
+      if let (Ok(kb_payload), Some((_v, Ok(holder_doc)))) = (serde_json::to_string(&kb_claims), ledger.resolve(&h.did, 0)) {
+        // (a holder whose #kb was rotated after its last publication cannot be checked against the ledger copy)
+        if let Ok(kb) = sign_raw(h, &format!("{}#kb", h.did), kb_payload.as_bytes(), &kb_opts) {
+          let published_has_key = {
+            let pj = serde_json::to_value(&holder_doc).unwrap();
+            let cj = serde_json::to_value(h.doc.core()).unwrap();
+            doc_method(&pj, &format!("{}#kb", h.did), None).map(|m| m.1) == doc_method(&cj, &format!("{}#kb", h.did), None).map(|m| m.1)
+          };
+          if published_has_key {
+            ctx::stat("fault.issuer.unsupported_sd_alg");
+            ctx::set_clock(clock.now);
+            let sd = SdJwt::new(jwt, Vec::new(), Some(kb));
+            let validator = SdJwtCredentialValidator::with_signature_verifier(EdDSAJwsVerifier::default(), SdObjectDecoder::new_with_sha256());
+            match ctx::catch(|| validator.validate_key_binding_jwt(&sd, &holder_doc, &KeyBindingJWTValidationOptions::default())) {
+              Err(p) => ctx::violation("C16", "C16.error_never_crash", "validate_key_binding_jwt/panic/unsupported-sd-alg", format!("panicked: {p}")),
+              Ok(Ok(_)) => ctx::violation(
+                "C16",
+                "C16.kb_accept_only_if_fully_bound",
+                "accepted-despite/hash-algorithm-of-the-token-not-available",
+                "a KB-JWT whose sd_hash is a sha-256 digest was accepted for an issuer token that declares another _sd_alg",
+              ),
+              Ok(Err(_)) => ctx::stat("probe.kb.rejected_unsupported_sd_alg"),
+            }
+            nontrivial = true;
+          }
+        }
+      }
+    }
   }
   if nontrivial {
     ctx::mark_nontrivial();
